@@ -1,5 +1,5 @@
 (* C15 -- response handling (Model/Design.v with tc_response = true; Model/Algebra.v mk_response). *)
-From Verif Require Import Base Tokens Algebra Contrasts Frame Eval Design DesignCoding ResponseProofs.
+From Verif Require Import Base Tokens Lazy Algebra Contrasts Frame Eval Design DesignCoding DesignStructure FrameStructure ResponseProofs ResponseIndep.
 From Verif Require Tie.
 Local Close Scope Qc_scope.
 Local Close Scope Q_scope.
@@ -52,6 +52,48 @@ Theorem C15_prop_two_columns :
                dc_rows dc = zip_with (fun a b => [a; b]) ss ts /\ dc_labels dc = None.
 Proof. exact response_prop. Qed.
 
+(* ---- the predictor matrices do not depend on which response is named ---- *)
+
+(* two formulas that differ only left of the tilde: when every response value is observed wherever the
+   predictors are complete (so the same rows are retained) both designs have the same row count, the same
+   common terms and the same group-specific terms -- names, kinds, labels, rows, levels, contrasts and the
+   parameters memorised by stateful transforms, under every na_action *)
+Theorem C15_predictors_independent_of_response : forall cx l1 l2 op r data na m1 m2 D1 D2,
+  tkind op = TILDE -> frame_wf data ->
+  describe (EBinary l1 op r) = Ok m1 -> describe (EBinary l2 op r) = Ok m2 ->
+  ~ In ""%string (pred_reads (commons m1) (groups m1)) ->
+  response_observed data m1 -> response_observed data m2 ->
+  design_matrices cx (EBinary l1 op r) data na = Ok D1 ->
+  design_matrices cx (EBinary l2 op r) data na = Ok D2 ->
+  same_predictors D1 D2.
+Proof. exact response_indep_formula. Qed.
+
+(* ... and a formula without response builds exactly the predictors of the formula with one, and has no
+   response *)
+Theorem C15_without_response : forall cx l op r data na m0 m D,
+  tkind op = TILDE -> frame_wf data -> tilde_free r = true ->
+  describe r = Ok m0 -> describe (EBinary l op r) = Ok m ->
+  ~ In ""%string (pred_reads (commons m) (groups m)) ->
+  response_observed data m ->
+  design_matrices cx (EBinary l op r) data na = Ok D ->
+  design_matrices cx r data na = Ok (strip_design D).
+Proof. exact formula_without_response_builds. Qed.
+
+(* The premise is necessary: a response that is missing on a predictor-complete row changes, under
+   "drop", the retained rows and with them every predictor, down to the mean center(x) memorises. *)
+Theorem C15_refuted_without_observed_response :
+  exists D1 D2,
+    design_matrices ResponseIndepExamples.ex_cx ResponseIndepExamples.e_y ResponseIndepExamples.ex_data NaDrop = Ok D1 /\
+    design_matrices ResponseIndepExamples.ex_cx ResponseIndepExamples.e_w ResponseIndepExamples.ex_data NaDrop = Ok D2 /\
+    ds_nrows D1 = 4 /\ ds_nrows D2 = 3 /\ ~ same_predictors D1 D2.
+Proof.
+  destruct ResponseIndepExamples.drop_rows_needed as (D1 & D2 & H1 & H2 & H3 & H4 & H5 & _).
+  exists D1, D2. auto.
+Qed.
+
+Print Assumptions C15_predictors_independent_of_response.
+Print Assumptions C15_without_response.
+Print Assumptions C15_refuted_without_observed_response.
 Print Assumptions C15_response_indicators.
 Print Assumptions C15_response_single_term.
 Print Assumptions C15_no_response.
